@@ -867,3 +867,29 @@ def for_loop_parts(n):
     except (KeyError, IndexError, TypeError, AttributeError):
         return None
     return None
+
+
+def clone_body(facts):
+    """The body that builds `<Array as Clone>::clone`'s result: the impl itself, or - when the impl only delegates (`fn clone(&self) -> Self {
+    self.share() }`) - the private function of `&self` it delegates to (followed twice at most)."""
+    b = None
+    for x in facts.fns():
+        if x.get("impl_self") == ARRAY and x.get("impl_trait_def") == "core::clone::Clone" and x.get("name") == "clone":
+            b = x
+    hops = 0
+    while b is not None and hops < 2:
+        root = strip(facts.root(b)) if b.get("thir") else None
+        tl = root
+        while isinstance(tl, dict) and tl.get("k") == "Block" and not tl["stmts"] and tl.get("e") is not None:
+            tl = strip(tl["e"])
+        if isinstance(tl, dict) and tl.get("k") == "Call" and (tl.get("callee") or {}).get("resolved_local") and len(tl.get("args") or []) == 1:
+            ps = [p_ for p_ in facts.params(b) if p_.get("pat")]
+            a0 = peel(tl["args"][0])
+            nb = facts.body(resolved(tl))
+            if ps and ps[0]["pat"].get("k") == "Binding" and isinstance(a0, dict) and a0.get("k") in ("VarRef",) and a0["v"] == ps[0]["pat"]["v"] \
+                    and nb is not None and nb.get("thir") and nb.get("impl_self") == ARRAY and nb.get("impl_trait_def") is None and not nb.get("reachable"):
+                b = nb
+                hops += 1
+                continue
+        break
+    return b
